@@ -715,6 +715,65 @@ fn est_roundtrip(req: &J) -> J {
     }
 }
 
+/// two policy sets built by edit operations (with policy texts), then self.merge(other, rename).
+/// out: {ok, err, renaming: n, n_policies, n_templates, expected_policies, expected_templates, dangling_links, shared_ids, changed}
+fn policyset_merge(req: &J) -> J {
+    use cedar_policy::{EntityUid, Policy, PolicyId, SlotId, Template};
+    use std::collections::{BTreeSet, HashMap};
+    fn build(ops: &J) -> Result<PolicySet, String> {
+        let mut ps = PolicySet::new();
+        for op in ops.as_array().cloned().unwrap_or_default() {
+            let id = PolicyId::new(op["id"].as_str().unwrap_or(""));
+            match op["op"].as_str().unwrap_or("") {
+                "add_static" => {
+                    let p = Policy::parse(Some(id), op["text"].as_str().unwrap_or("permit(principal, action, resource);")).map_err(|e| e.to_string())?;
+                    ps.add(p).map_err(|e| e.to_string())?
+                }
+                "add_template" => {
+                    let t = Template::parse(Some(id), op["text"].as_str().unwrap_or("permit(principal == ?principal, action, resource);")).map_err(|e| e.to_string())?;
+                    ps.add_template(t).map_err(|e| e.to_string())?
+                }
+                "link" => {
+                    let mut vals = HashMap::new();
+                    vals.insert(SlotId::principal(), EntityUid::from_str(r#"User::"alice""#).unwrap());
+                    ps.link(PolicyId::new(op["template"].as_str().unwrap_or("")), id, vals).map_err(|e| e.to_string())?
+                }
+                other => return Err(format!("unknown op {other}")),
+            }
+        }
+        Ok(ps)
+    }
+    fn describe(ps: &PolicySet) -> (BTreeSet<String>, BTreeSet<String>) {
+        (
+            ps.policies().map(|p| format!("{} := {}", p.id(), p)).collect(),
+            ps.templates().map(|t| format!("{} := {}", t.id(), t)).collect(),
+        )
+    }
+    let (mut me, other) = match (build(&req["self"]), build(&req["other"])) {
+        (Ok(a), Ok(b)) => (a, b),
+        (a, b) => return json!({"input_error": format!("{:?} {:?}", a.err(), b.err())}),
+    };
+    let before = describe(&me);
+    let (o_pols, o_tmpls) = describe(&other);
+    let rename = req["rename"].as_bool().unwrap_or(false);
+    match me.merge(&other, rename) {
+        Ok(renaming) => {
+            let n_policies = me.policies().count();
+            let n_templates = me.templates().count();
+            // without renaming identical items coincide; with renaming a conflicting item arrives under a fresh id
+            let exp_pols = if rename { before.0.len() + o_pols.iter().filter(|x| !before.0.contains(*x)).count() } else { before.0.union(&o_pols).count() };
+            let exp_tmpls = if rename { before.1.len() + o_tmpls.iter().filter(|x| !before.1.contains(*x)).count() } else { before.1.union(&o_tmpls).count() };
+            let tids: BTreeSet<String> = me.templates().map(|t| t.id().to_string()).collect();
+            let dangling: Vec<String> = me.policies().filter_map(|p| p.template_id().map(|t| (p.id().to_string(), t.to_string()))).filter(|(_, t)| !tids.contains(t)).map(|(p, _)| p).collect();
+            let shared: Vec<String> = me.policies().map(|p| p.id().to_string()).filter(|p| tids.contains(p)).collect();
+            let lost: Vec<String> = before.0.iter().filter(|x| !describe(&me).0.contains(*x)).cloned().collect();
+            json!({"ok": true, "renaming": renaming.len(), "n_policies": n_policies, "n_templates": n_templates, "expected_policies": exp_pols, "expected_templates": exp_tmpls,
+                   "dangling_links": dangling, "shared_ids": shared, "lost": lost})
+        }
+        Err(e) => json!({"ok": false, "err": e.to_string(), "changed": describe(&me) != before}),
+    }
+}
+
 fn handle(req: &J) -> J {
     match req["op"].as_str().unwrap_or("") {
         "eval" => eval(req),
@@ -730,6 +789,7 @@ fn handle(req: &J) -> J {
         "tc_edit" => tc_edit(req),
         "batched" => batched(req),
         "est_roundtrip" => est_roundtrip(req),
+        "policyset_merge" => policyset_merge(req),
         other => json!({"unknown_op": other}),
     }
 }
